@@ -223,8 +223,22 @@ class MacroGen:
                 self.declared_here.append(set())
                 body = self.stmts(scope, nparams, depth + 1, self.rng.randint(0, 2))
                 self.declared_here.pop()
-                # the loop variable must not be assigned in the body (termination)
-                body = [s for s in body if not (s[0] == "set" and s[1] == v) and not (s[0] == "decl" and s[2] == v)]
+                # the loop variable must not be assigned anywhere in the body, nested blocks included (termination)
+                def strip(stmts):
+                    out2 = []
+                    for st in stmts:
+                        if (st[0] == "set" and st[1] == v) or (st[0] == "decl" and st[2] == v) or (st[0] == "clos" and st[1] == v):
+                            continue
+                        st = list(st)
+                        if st[0] == "if":
+                            st[2], st[3] = strip(st[2]), strip(st[3])
+                        elif st[0] == "block":
+                            st[1] = strip(st[1])
+                        elif st[0] == "while":
+                            st[3] = strip(st[3])
+                        out2.append(st)
+                    return out2
+                body = strip(body)
                 out.append(["while", v, self.rng.randint(2, 12), body])
             elif r < 0.97:
                 name = self.pick_new_name(scope)
